@@ -424,12 +424,12 @@ def sigdecode_der(sig_der, order):
     rs_strings, empty = der.remove_sequence(sig_der)
     if empty != b"":
         raise der.UnexpectedDER(
-            "trailing junk after DER sig: %s" % binascii.hexlify(empty)
+            "trailing junk after DER sig: %s" % binascii.hexlify(empty).decode()
         )
     r, rest = der.remove_integer(rs_strings)
     s, empty = der.remove_integer(rest)
     if empty != b"":
         raise der.UnexpectedDER(
-            "trailing junk after DER numbers: %s" % binascii.hexlify(empty)
+            "trailing junk after DER numbers: %s" % binascii.hexlify(empty).decode()
         )
     return r, s
